@@ -51,6 +51,7 @@ type program struct {
 	Prio    []int      `json:"prio"`     // gate ids, highest priority first
 	QuietUs int        `json:"quiet_us"` // quiescence window
 	Free    bool       `json:"free"`     // no gates at all: let the Go scheduler decide
+	Contend *contendSpec `json:"contend"` // contention mode instead of a program (contend.go)
 }
 
 type event struct {
@@ -246,6 +247,10 @@ func main() {
 	if err := dec.Decode(&prog); err != nil {
 		fmt.Fprintln(os.Stderr, "HARNESS: bad program:", err)
 		os.Exit(3)
+	}
+	if prog.Contend != nil {
+		contend(*prog.Contend)
+		return
 	}
 	if prog.QuietUs == 0 {
 		prog.QuietUs = 300
